@@ -68,6 +68,27 @@ def make_rule(name: str):
         def rep2(op, x):
             return op.Identity(x), op.Max(x, op.Constant(value_float=0.0))
         return P.RewriteRule(pat2, rep2, name=name)
+    if name == "sub_to_add_cached_neg":
+        # a rule with per-graph state (set up and cleared by the graph visitor hooks): Neg(s) is created once per graph and reused
+        class CachedNeg(P.RewriteRuleClassBase):
+            def __init__(self):
+                super().__init__(name=name)
+                self._neg = {}
+
+            def setup(self):
+                self._neg = {}
+
+            def cleanup(self):
+                self._neg = {}
+
+            def pattern(self, op, x, s):
+                return op.Sub(x, s)
+
+            def rewrite(self, op, x, s):
+                if id(s) not in self._neg:
+                    self._neg[id(s)] = op.Neg(s)
+                return op.Add(x, self._neg[id(s)])
+        return CachedNeg.rule()
     if name == "sub_to_add_neg":
         return P.RewriteRule(lambda op, x, y: op.Sub(x, y), lambda op, x, y: op.Add(x, op.Neg(y)), name=name)
     if name == "add_const_reassoc":
@@ -90,7 +111,9 @@ RULES = ["reemit_relu", "swap_add", "double_transpose", "neg_neg", "mul_one", "r
          # multi-output patterns whose hosts put a consumer of the first output BETWEEN the matched output nodes
          "relu_neg_two_outputs_between", "two_roots", "two_roots_between", "two_roots_second_first",
          # replacements that return a pattern input itself
-         "mul_one_passthrough", "neg_neg_passthrough"]
+         "mul_one_passthrough", "neg_neg_passthrough",
+         # a rule that keeps per-graph state through the graph_pre_visitor / graph_post_visitor hooks
+         "sub_to_add_cached_neg"]
 
 
 def instance(rule: str, src: str, pfx: str, nodes: list, inits: list):
@@ -153,7 +176,7 @@ def instance(rule: str, src: str, pfx: str, nodes: list, inits: list):
         nodes.append(oh.make_node("Add", [src, "aux"], [n("a")]))
         nodes.append(oh.make_node("Mul", [n("a"), "dflt"], [n("m")]))
         return n("m"), [n("a")]
-    if rule == "sub_to_add_neg":
+    if rule in ("sub_to_add_neg", "sub_to_add_cached_neg"):
         nodes.append(oh.make_node("Sub", [src, "aux"], [n("s")]))
         return n("s"), []
     if rule == "add_const_reassoc":
@@ -262,7 +285,7 @@ def hosts(rule: str, tier: str = "quick"):
     finish("instance inside a Loop body (captures x)", [oh.make_node("Loop", ["trip", "cond", "x"], ["y"], body=body)], [trip, cond], ["y"], 1)
     # inside a model-local function
     fnodes, finits = [], []
-    if rule not in ("mul_one", "add_const_reassoc", "swap_add", "sub_to_add_neg", "mul_add_as_function"):  # function bodies cannot own initializers / outer aux
+    if rule not in ("mul_one", "add_const_reassoc", "swap_add", "sub_to_add_neg", "sub_to_add_cached_neg", "mul_add_as_function"):  # function bodies cannot own initializers / outer aux
         o_, _ = instance(rule, "p", "f0", fnodes, finits)
         fnodes.append(oh.make_node("Identity", [o_], ["q"]))
         fn = oh.make_function("local", "Fn", ["p"], ["q"], fnodes, [oh.make_opsetid("", 18)])
